@@ -5,7 +5,7 @@ import re
 from ..model import UNKNOWN, ClassRef, FuncRef, OpInt, AnalysisError, norm, walk_no_nested
 from ..interp import Interp, Depth, SEQS
 from ..table import Tracer
-from ..rules import canon_guard, check_rule, raising_guards
+from ..rules import canon_guard, check_rule, raising_guards, canon_text, equiv_folded
 from .. import common, spec, flow
 from . import c20
 
@@ -654,7 +654,7 @@ def rule_multisig(ctx, repo, it):
     iff = [s for s in lp.body if isinstance(s, ast.If) and norm(s.test).startswith('_CheckSig(')]
     ok = len(iff) == 1 and [norm(x) for x in iff[0].body] == ['isig += 1', 'sigs_count -= 1'] and not iff[0].orelse
     r.check(ok, 'sig-consumed-on-match', common.site_of(ms, lp), 'signature cursor advances only on a match', 'the signature cursor handling is %s' % ([norm(x) for x in iff[0].body] if iff else None))
-    fail = [s for s in lp.body if isinstance(s, ast.If) and canon_guard(s.test, repo, ms.module) == 'sigs_count > keys_count']
+    fail = [s for s in lp.body if isinstance(s, ast.If) and equiv_folded(s.test, repo, ms.module, 'sigs_count > keys_count')]
     r.check(len(fail) == 1 and any(norm(x) == 'success = False' for x in fail[0].body), 'fail-when-too-few-keys', common.site_of(ms, lp), 'fails when sigs_count > keys_count',
             'the loop does not fail when more signatures than keys remain')
     args = None
